@@ -10,6 +10,7 @@ C03.f context rules are identities on the pattern family
 """
 import ast
 import itertools
+import re
 
 from ..core.flow import call_name, calls_in, is_name
 from ..core.interp import ModuleInterp
@@ -450,7 +451,42 @@ def rule_f(ctx, out):
             out.bad(f"context-rule-not-exercised:{n}", f"no pattern of the family makes rule {n!r} fire: it is not examined", where(eng.rules_fn))
 
 
+def rule_g(ctx, out):
+    """Applying a type-1 rule (apply_all_simp_rules: substitute the rule's result for the instruction's output everywhere, delete the
+    instruction, repeat to a fixpoint) preserves what the target stack denotes and leaves a well-formed specification: interpreted
+    on reducible patterns — bare, used twice by one consumer, used by two consumers, nested — and compared as in C03.f."""
+    from ..core import ctxrules as cr
+    eng2 = cr.Engine(ctx, CTX_CFG["entry"], CTX_CFG["rules_fn"], CTX_CFG["module"])
+    eng = cr.Engine(ctx, f"{GO}.apply_all_simp_rules", CTX_CFG["simple"], GO, style="returns")
+    eng.defaults.update({"int_not0": [evm.M], "size_flag": False})
+    fam = cr.Family(ctx, eng2, CTX_CFG["simple"], CTX_CFG["dispatch"])
+    ops2 = ("ADD", "AND", "EQ", "LT") if ctx.tier == "thorough" else ("ADD",)
+    variants = ((False, False), (True, False), (False, True)) if ctx.tier == "thorough" else ((False, False), (True, False))
+    stats, fails = cr.examine(eng, fam, fam.reducible(ops2), variants=variants, only_normal=False)
+    out.info["rule_application"] = {"patterns": stats["patterns"], "evaluations_with_a_rule_fired": stats["fired"], "rules_seen": len(stats["by_rule"])}
+    if stats["fired"] < 500 or len(stats["by_rule"]) < 25:
+        raise AnalysisError(f"type-1 rule application: only {stats['fired']} firing evaluations / {len(stats['by_rule'])} rules")
+    fails.sort(key=lambda t: (t[1], len(t[2]), t[2]))
+    shown = set()
+    for rule, kind, pat, variant, mm, fired in fails:
+        shape = re.sub(r"\b(?:[A-Z]+)\((?:[XYZ0-9]|,|2\^256-1)*\)", "r", pat)      # r = the reducible sub-term
+        if (kind, shape) in shown:
+            out.instances += 1
+            continue
+        shown.add((kind, shape))
+        what = {"value": f"denotes a different word afterwards (target {mm.get('target')}: {mm.get('before')} before, {mm.get('after')} after, at {mm.get('assignment')})",
+                "ill-formed-result": f"leaves an ill-formed specification ({mm.get('what')})", "raises": f"raises {mm.get('what')}",
+                "diverges": "does not reach a fixpoint"}.get(kind, kind)
+        out.bad(f"rule-application:{shape}:{kind}", f"applying type-1 rules to {pat} (rules {fired[:3]}) {what}", where(eng.entry),
+                {"pattern": pat, "variant": variant, "rules_fired": fired, "mismatch": mm})
+    bad = len(fails)
+    out.instances += stats["fired"] - bad
+    out.satisfied += stats["fired"] - bad
+    out.samples.append({"shapes": "r, op(r, r), op(r, Z), op(Z, r), op(op(r, Z), r), ISZERO(r), NOT(r) for every reducible r = o(a, b)", "consumers": list(ops2)})
+
+
 RULES = [
+    ("C03.g", "type-1 rule application preserves the denotation", 500, rule_g),
     ("C03.f", "context rules are identities on the pattern family", 25, rule_f),
     ("C03.a", "type-1 rule table against the complete identity set", 200, rule_a),
     ("C03.b", "constant folders stay in the word domain", 15, rule_b),
